@@ -62,6 +62,8 @@ def run(check):
         fin.append({"program": prog, "scripts": scripts, "input": cancelfam.base_input(rng), "shape": name})
     stats = {"cancel_points": 0, "faults": 0, "prepare_rejections": 0, "census_nonempty_at_return": 0, "max_settle_ms": 0.0}
     with harness.Runner() as rn:
+        if not rn.hang_oracle_works():
+            check.fail_broken("the hang oracle (Go runtime deadlock report) does not fire in this build")
         rec_items = []
         for i, g in enumerate(fin):
             case, sem = runfam.build_case("c05-rec-%03d" % i, g)
